@@ -13,6 +13,21 @@ static void ensure(World &w, TaskState &t, Slot &s, size_t size, uint64_t tag) {
     slot_paint(s, mix2(w.plan->arena_seed ^ (w.world_id * 0x9E37ULL), ((uint64_t)t.id << 32) | tag), 0);
     slot_fence_arm(s);
 }
+static void bump(World &w, int c) { if (w.stats) w.stats->c[c]++; }
+// The caller moved the object: state objects are plain data (the header documents no restriction), so a struct assignment
+// into another variable, a table that was reallocated or a record returned by value carries the object to a new address.
+// The old place is overwritten with something else.
+static void relocate(World &w, Slot &s, const Op &op) {
+    if (!s.base || !(op.flags & F_MOVED)) return;
+    Slot n = slot_alloc(s.size);
+    slot_paint(n, mix2(op.dseed, 0x4D4F5645), 0);
+    slot_fence_arm(n);
+    memcpy(n.p(), s.p(), s.size);
+    slot_paint(s, mix2(op.dseed, 0x0D1E), (int)((op.dseed >> 17) % 3));
+    slot_free(s);
+    s = n;
+    bump(w, CT_F_MOVED);
+}
 static void note(World &w, TaskState &t, int index, int rc, const uint8_t *out, size_t n) {
     uint64_t h = hash_bytes(out, n, 0x77 + (uint64_t)rc);
     if ((size_t)index >= t.res.size()) t.res.resize((size_t)index + 1);
@@ -20,11 +35,10 @@ static void note(World &w, TaskState &t, int index, int rc, const uint8_t *out, 
     w.ehash = mix2(w.ehash, h);
 }
 static void skip(World &w) { if (w.stats) w.stats->c[CT_OPS_SKIPPED]++; }
-static void bump(World &w, int c) { if (w.stats) w.stats->c[c]++; }
 static void state(World &w, uint32_t s) { if (w.stats) w.stats->states.insert(s); }
 // sim/ccaller.c: the same calls made by a C caller that holds its objects behind `void *` handles
 extern "C" { void sim_c_hash_free(void *); void sim_c_hmac_free(void *); void sim_c_hkdf_free(void *); void sim_c_prng_free(void *); void sim_c_clean(void *, size_t); extern const int sim_c_handles_opaque; }
-static inline bool c_handle(const Op &op) { return ((op.dseed >> 7) & 1) != 0; }   // plan data: this call is made by the C caller
+static inline bool c_handle(const Op &op) { return sim_c_handles_opaque >= 0 && ((op.dseed >> 7) & 1) != 0; }   // plan data: this call is made by the C caller
 static bool all_zero(const uint8_t *p, size_t n) { for (size_t i = 0; i < n; i++) if (p[i]) return false; return true; }
 static std::string u2s(uint64_t v) { return std::to_string((unsigned long long)v); }
 
@@ -285,6 +299,10 @@ extern "C" long sim_os_entropy(void *buf, size_t len, int mode) {
     if (el < 0) el = 0;
     w.ehash = mix2(w.ehash, 0x0500 + (uint64_t)el);
     t.now_ns += w.plan->clock_step_ns;   // simulated time passes with every OS call
+    if (w.plan->clock_jump_s && (c.os_calls == 2 || c.os_calls == 5)) {   // the wall clock is stepped (NTP, an operator, a board without RTC)
+        t.now_ns += (uint64_t)w.plan->clock_jump_s * 1000000000ULL;
+        bump(w, CT_F_CLOCK_JUMP);
+    }
     if (el == 0 || el >= 2000) {
         // The OS entropy device is a byte stream (per request): every successful call delivers the next bytes of it. A full
         // answer (el == 0) satisfies the whole request of this call; a short read (el >= 2000, /dev/urandom build only)
@@ -475,6 +493,7 @@ extern "C" int sim_heap_call(void) {
 // ---------------------------------------------------------------- hash family (C11)
 static void do_hash(World &w, TaskState &t, const Op &op, int index) {
     HashObj &o = t.h[op.obj % NOBJ];
+    relocate(w, o.m, op);
     ensure(w, t, o.m, sizeof(tinyjambu_hash_state_t), 0x100 + (uint64_t)op.obj);
     tinyjambu_hash_state_t *st = (tinyjambu_hash_state_t *)o.m.p();
     const bool on = (w.armed == C11 || w.armed == PR_NONE);
@@ -594,6 +613,7 @@ static void do_hmac(World &w, TaskState &t, const Op &op, int index) {
         note(w, t, index, 0, out.p, 32);
         return;
     }
+    relocate(w, o.m, op);
     ensure(w, t, o.m, sizeof(tinyjambu_hmac_state_t), 0x200 + (uint64_t)op.obj);
     tinyjambu_hmac_state_t *st = (tinyjambu_hmac_state_t *)o.m.p();
     switch (op.kind) {
@@ -721,6 +741,7 @@ static void do_hkdf(World &w, TaskState &t, const Op &op, int index) {
         note(w, t, index, rc, out.p, outlen);
         return;
     }
+    relocate(w, o.m, op);
     ensure(w, t, o.m, sizeof(tinyjambu_hkdf_state_t), 0x300 + (uint64_t)op.obj);
     tinyjambu_hkdf_state_t *st = (tinyjambu_hkdf_state_t *)o.m.p();
     switch (op.kind) {
@@ -1065,6 +1086,7 @@ static void after_generate(World &w, TaskState &t, PrngObj &o, const uint8_t *ou
 
 static void do_prng(World &w, TaskState &t, const Op &op, int index) {
     PrngObj &o = t.p[op.obj % NOBJ];
+    relocate(w, o.m, op);
     ensure(w, t, o.m, sizeof(tinyjambu_prng_state_t), 0x500 + (uint64_t)op.obj);
     tinyjambu_prng_state_t *st = (tinyjambu_prng_state_t *)o.m.p();
     o.owner = &t; o.index = op.obj % NOBJ;
